@@ -21,6 +21,7 @@ import (
 
 type aRec struct {
 	Src    int               `json:"src"`
+	Name   string            `json:"source_name"` // the name handed to In (normally the pool name of Src)
 	Data   []byte            `json:"data"`
 	Text   string            `json:"text,omitempty"` // Data as text (witness readability only)
 	New    bool              `json:"new,omitempty"`
@@ -39,9 +40,25 @@ type aCase struct {
 	Antispam  bool                        `json:"antispam_enabled"`
 	Spam      spamSpec                    `json:"antispam"`
 	MetaField string                      `json:"source_name_meta_field,omitempty"`
+	SrcMode   string                      `json:"sources"` // distinct | namesakes (several ids, one name) | renamed (one id, changing names)
 	Saved     map[string]map[string]int64 `json:"saved_offsets,omitempty"` // source id -> stream -> committed offset
 	Records   []aRec                      `json:"records"`
 }
+
+// Sources of Part A: the antispam sources of Part B plus source ids that share
+// their source NAME with another id (a rotated file and its successor, a
+// re-created symlink, an input that passes a constant name such as "kafka").
+// The antispam key of a record is its source ID (pipeline/README.md: only
+// source_name_meta_field replaces it), so namesakes never share a budget.
+var aSrcPool = append(append([]srcDef(nil), srcPool...),
+	srcDef{ID: "11", Name: srcPool[0].Name, Meta: srcPool[0].Meta},
+	srcDef{ID: "12", Name: srcPool[0].Name, Meta: srcPool[0].Meta},
+	srcDef{ID: "13", Name: srcPool[2].Name, Meta: srcPool[2].Meta},
+	srcDef{ID: "14", Name: "kafka", Meta: map[string]string{"svc": "bus", "ns": "infra"}},
+	srcDef{ID: "15", Name: "kafka", Meta: map[string]string{"svc": "bus", "ns": "infra"}},
+)
+
+var namesakeSets = [][]int{{0, 4}, {0, 4, 5}, {2, 6}, {7, 8}, {0, 4, 2, 6}, {7, 8, 1}}
 
 // ---- plugins ----
 
@@ -270,14 +287,16 @@ func runACase(cs *aCase, col *collector, caseNo int) {
 			w["record"] = show(rec.Data)
 			w["record_len"] = len(rec.Data)
 			w["record_kind"] = rec.Kind
-			w["source"] = srcPool[rec.Src]
+			w["source"] = aSrcPool[rec.Src]
+			w["source_name_passed"] = rec.Name
+			w["sources_mode"] = cs.SrcMode
 			w["meta"] = rec.Meta
 			w["offset"] = rec.Offset
 			w["new_source"] = rec.New
 			// earlier records of the case matter for the antispam: keep them short
 			var hist []string
 			for j := 0; j < i && len(hist) < 80; j++ {
-				hist = append(hist, fmt.Sprintf("src=%d maint_before=%d len=%d %s", cs.Records[j].Src, cs.Records[j].Maint, len(cs.Records[j].Data), core_trunc(strconv.Quote(string(cs.Records[j].Data)), 120)))
+				hist = append(hist, fmt.Sprintf("id=%s name=%q maint_before=%d len=%d %s", aSrcPool[cs.Records[j].Src].ID, cs.Records[j].Name, cs.Records[j].Maint, len(cs.Records[j].Data), core_trunc(strconv.Quote(string(cs.Records[j].Data)), 120)))
 			}
 			w["earlier_records"] = hist
 		}
@@ -309,7 +328,8 @@ func runACase(cs *aCase, col *collector, caseNo int) {
 			}
 			col.count("A maintenance rounds", 1)
 		}
-		src := srcPool[rec.Src]
+		src := aSrcPool[rec.Src]
+		src.Name = rec.Name
 		sid, _ := strconv.ParseUint(src.ID, 10, 64)
 
 		// ---- what the documents say ----
@@ -540,7 +560,7 @@ func runACase(cs *aCase, col *collector, caseNo int) {
 		}
 		col.count("A "+cs.Decoder+": delivered events compared", 1)
 		d := ds[0]
-		if sid, _ := strconv.ParseUint(srcPool[rec.Src].ID, 10, 64); d.Src != pipeline.SourceID(sid) || d.Name != srcPool[rec.Src].Name {
+		if sid, _ := strconv.ParseUint(aSrcPool[rec.Src].ID, 10, 64); d.Src != pipeline.SourceID(sid) || d.Name != rec.Name {
 			col.violate("A delivered event carries another source id / source name than the record", fmt.Sprintf("got source %d %q", d.Src, d.Name), witness(i, nil))
 			return
 		}
